@@ -27,6 +27,8 @@ var checks = map[string]*check{
 		Parts: []part{
 			{Name: "routing-1id", Kind: "explore", Scen: "mux_route", Inst: inst("single", "single"), Depths: depths([]int{3}, []int{3, 4, 5}), Budget: budget(2*time.Minute, 10*time.Minute)},
 			{Name: "routing-2id", Kind: "explore", Scen: "mux_route", Inst: inst("pairs", "pairs-all"), Depths: depths([]int{2}, []int{2, 3}), Budget: budget(3*time.Minute, 20*time.Minute)},
+			{Name: "concurrent-dispense", Kind: "explore", Scen: "conc_ops", Inst: inst("c06", "c06"), Depths: depths([]int{2}, []int{2, 3}), Budget: budget(2*time.Minute, 10*time.Minute)},
+			{Name: "conformance", Kind: "conform", Scen: "mux_route"},
 		},
 	},
 	"C07": {
@@ -43,6 +45,7 @@ var checks = map[string]*check{
 			{Name: "routing-1id", Kind: "explore", Scen: "grpc_route", Inst: inst("single", "single"), Depths: depths([]int{2}, []int{2, 3}), Budget: budget(2*time.Minute, 10*time.Minute)},
 			{Name: "routing-2id", Kind: "explore", Scen: "grpc_route", Inst: inst("pairs", "pairs-all"), Depths: depths([]int{1}, []int{1, 2}), Budget: budget(3*time.Minute, 25*time.Minute)},
 			{Name: "tls-and-address-translation", Kind: "explore", Scen: "grpc_route", Inst: inst("variants", "variants-thorough"), Depths: depths([]int{1}, []int{1, 2}), Budget: budget(3*time.Minute, 15*time.Minute)},
+			{Name: "conformance", Kind: "conform", Scen: "grpc_route"},
 		},
 	},
 	"C09": {
@@ -58,6 +61,7 @@ var checks = map[string]*check{
 		},
 		Parts: []part{
 			{Name: "histories", Kind: "explore", Scen: "broker_hist", Inst: inst("quick", "thorough3"), Depths: depths([]int{2}, []int{2, 3}), Budget: budget(3*time.Minute, 25*time.Minute)},
+			{Name: "conformance", Kind: "conform", Scen: "broker_hist"},
 		},
 	},
 	"C08": {
@@ -75,6 +79,7 @@ var checks = map[string]*check{
 			{Name: "single", Kind: "explore", Scen: "grpcmux_seq", Inst: inst("single", "single"), Depths: depths([]int{2}, []int{2, 3}), Budget: budget(2*time.Minute, 10*time.Minute)},
 			{Name: "pairs", Kind: "explore", Scen: "grpcmux_seq", Inst: inst("pairs", "pairs"), Depths: depths([]int{1}, []int{1, 2}), Budget: budget(3*time.Minute, 20*time.Minute)},
 			{Name: "triples", Kind: "explore", Scen: "grpcmux_seq", Inst: inst("none", "triples"), Depths: depths([]int{0}, []int{1}), Budget: budget(time.Minute, 10*time.Minute)},
+			{Name: "conformance", Kind: "conform", Scen: "grpcmux_seq"},
 		},
 	},
 	"C01": {
@@ -132,6 +137,7 @@ var checks = map[string]*check{
 		Parts: []part{
 			{Name: "sequences", Kind: "explore", Scen: "once_seq", BatchN: 100, Depths: depths([]int{0}, []int{0}), Budget: budget(3*time.Minute, 30*time.Minute)},
 			{Name: "concurrent", Kind: "explore", Scen: "once_conc", Depths: depths([]int{2}, []int{2, 3}), Budget: budget(3*time.Minute, 20*time.Minute)},
+			{Name: "conformance", Kind: "conform", Scen: "once_seq"},
 		},
 	},
 	"C10": {
@@ -162,6 +168,7 @@ var checks = map[string]*check{
 			{Name: "sequential", Kind: "explore", Scen: "kill_plugin", Inst: inst("seq", "seq"), Depths: depths([]int{2}, []int{2, 3}), Budget: budget(3*time.Minute, 20*time.Minute)},
 			{Name: "concurrent", Kind: "explore", Scen: "kill_plugin", Inst: inst("conc", "conc-thorough"), Depths: depths([]int{2}, []int{2, 3}), Budget: budget(3*time.Minute, 20*time.Minute)},
 			{Name: "real-processes", Kind: "enum", Bin: "e3.test", Test: "TestC04Proc"},
+			{Name: "conformance", Kind: "conform", Scen: "kill_plugin"},
 		},
 	},
 	"C03": {
@@ -176,6 +183,7 @@ var checks = map[string]*check{
 		},
 		Parts: []part{
 			{Name: "crash-points", Kind: "explore", Scen: "crash_plugin", Depths: depths([]int{2}, []int{2, 3}), Budget: budget(3*time.Minute, 25*time.Minute)},
+			{Name: "conformance", Kind: "conform", Scen: "crash_plugin"},
 		},
 	},
 	"C11": {
@@ -190,6 +198,7 @@ var checks = map[string]*check{
 		Parts: []part{
 			{Name: "sizes", Kind: "explore", Scen: "stdio_sync", BatchN: 60, Depths: depths([]int{0}, []int{0}), Budget: budget(3*time.Minute, 30*time.Minute)},
 			{Name: "schedules", Kind: "explore", Scen: "stdio_sync", Inst: inst("sched", "sched"), Depths: depths([]int{2}, []int{2, 3}), Budget: budget(3*time.Minute, 20*time.Minute)},
+			{Name: "conformance", Kind: "conform", Scen: "stdio_sync"},
 		},
 	},
 	"C13": {
@@ -255,6 +264,7 @@ var checks = map[string]*check{
 		Parts: []part{
 			{Name: "schedules", Kind: "explore", Scen: "conc_ops", Depths: depths([]int{2}, []int{2, 3}), Budget: budget(4*time.Minute, 25*time.Minute)},
 			{Name: "race-pass", Kind: "enum", Bin: "e3.test", Test: "TestRacePass"},
+			{Name: "conformance", Kind: "conform", Scen: "conc_ops"},
 		},
 	},
 	"C12": {
